@@ -271,6 +271,9 @@ def _ext_call(ev, dotted, args, kwargs, fr, node):
     short = dotted.split('.')[-1]
     if dotted in ('bytes.fromhex', 'builtins.bytes.fromhex'):
         return fromhex(args[0])
+    if dotted in ('weakref.ref', 'weakref.proxy', 'weakref.ReferenceType') and len(args) == 1 and not kwargs:
+        # a weak reference: what it yields later depends on whether anything else still holds the referent
+        return T.raw_op('WEAKREF', args[0])
     if dotted in ('int.from_bytes', 'builtins.int.from_bytes'):
         a = _kw(args, kwargs, ['bytes', 'byteorder'], {'byteorder': T.const('big')})
         return T.int_(a['bytes'], a['byteorder'])
@@ -581,6 +584,13 @@ def attr_of(ev, base, name, fr):
 def method_call(ev, recv, name, args, kwargs, fr, node):
     if T.tag(recv) == 'raise':
         return recv
+    if any(T.is_op(a, 'ITER') for a in args) and name in ('join', 'extend', 'update', 'fromkeys'):
+        args = [ev._consume(a) for a in args]
+    if T.is_op(recv, 'ITER'):
+        if name == '__next__' and not args:
+            items = ev._consume(recv)
+            return T.opaque('next() on a one-shot iterator')
+        return T.raise_('AttributeError')
     tb = T.type_of(recv)
     if tb == 'argparser':
         if name in ('exit', 'error'):
